@@ -270,7 +270,7 @@ class RefsEngine(Engine):
             t = self.as_v(v)
             if cn == "BaseRef":
                 return PyBool(RS.is_ref(t))
-            if cn in RS.C:
+            if cn in RS.C or (cn in self.ct.classes and self.ct.is_refclass(cn)):
                 subs = [c for c in RS.C if cn in self.ct.mro(c)]
                 return PyBool(z3.Or(*[RS.cls_of(t) == RS.C[c] for c in subs]))
             if cn == "dict":
